@@ -310,7 +310,7 @@ func genVals(r *Rng, n int) []int64 {
 func genSpec(r *Rng, lim GenLimits) (TrieSpec, string) {
 	keys, name := genKeys(r, lim)
 	s := TrieSpec{Keys: keys, Opt: genOpt(r)}
-	w := []int{2, 2, 6, 3, 2, 2, 2, 3, 4, 3, 2, 2, 1, 1, 1, 2, 1}
+	w := []int{2, 2, 6, 3, 2, 2, 2, 3, 4, 3, 2, 2, 1, 1, 1, 2, 1, 2}
 	s.Enc = encKinds[r.WeightedPick(w)]
 	s.ValIDs = genVals(r, len(keys))
 	return s, name
